@@ -3,6 +3,14 @@
   (Python dict = ordered association list), Python error kinds.
   Core Lean only (no Mathlib) so that the driver can be compiled.
 -/
+import Lean
+open Lean in
+/-- `s%"END"` elaborates to the code-point list `['E','N','D']` (a literal the kernel can compute with). -/
+macro:max "s%" s:str : term => do
+  let cs := s.getString.toList
+  let elems := cs.map fun c => Syntax.mkCharLit c
+  `(([$(elems.toArray),*] : List Char))
+
 namespace Mappy
 
 /-- Strings are lists of code points: proofs about `lower`, prefixes and suffixes are then list proofs,
@@ -21,13 +29,14 @@ def upper (s : Str) : Str := s.map upperC
 /-- The Python exception kinds the models distinguish. -/
 inductive PyErr where
   | keyError | indexError | typeError | attributeError | assertionError | valueError | ioError
-  | unboundLocal
+  | unboundLocal | unsupported
   deriving DecidableEq, Repr, Inhabited
 
 def PyErr.name : PyErr → String
   | .keyError => "KeyError" | .indexError => "IndexError" | .typeError => "TypeError"
   | .attributeError => "AttributeError" | .assertionError => "AssertionError"
   | .valueError => "ValueError" | .ioError => "IOError" | .unboundLocal => "UnboundLocalError"
+  | .unsupported => "UNSUPPORTED"
 
 /-- JSON-like values. `flt` carries the Python `repr` lexeme of a float (mappyfile never computes
 with floats). `dict` is an insertion-ordered association list. `tup` is a Python tuple. -/
@@ -120,6 +129,17 @@ end
 instance : DecidableEq J := fun a b =>
   if h : J.beq a b = true then isTrue (J.beq_eq a b h)
   else isFalse (fun e => h (e ▸ J.beq_refl a))
+
+/-- Python truthiness -/
+def truthy : J → Bool
+  | .null => false
+  | .bool b => b
+  | .int n => n != 0
+  | .flt s => !(s = ['0','.','0'] || s = ['-','0','.','0'])
+  | .str s => !s.isEmpty
+  | .list xs => !xs.isEmpty
+  | .tup xs => !xs.isEmpty
+  | .dict kvs => !kvs.isEmpty
 
 /-- Python-style results. -/
 abbrev Res (α : Type) := Except PyErr α
